@@ -179,7 +179,7 @@ theorem HU_of_in (hf : FragsIn c D) (hk : KeysFunctionalOn D) : ∀ (k : Nat) (r
         show n.alias.getD n.name = h.alias.getD h.name
         have a : n.key = h.key := by rw [hk1, hk2]
         exact a)
-    · intro h fd hh hfd ot hot
+    · intro h fd hh hfd ot hot _
       exact HU_of_in hf hk k ot _ (collectMerged_in c D hf ot p.2 (fun n hn => (hg p hp n hn).2))
 
 end Inv
